@@ -187,6 +187,8 @@ def wiring(R):
     opt_of_param = {}
     for p in [x for x in init.params if x != 'self']:
         a = arg_of(cc, init, p)
+        if a is None and default_of(init, p) is not None:
+            continue                 # an optional extra (a logger ...), not one of the negotiated parameters
         need(a is not None, 'from_options does not pass %s' % p)
         o, on = rd.origin(cn, a)
         name = None
